@@ -123,6 +123,7 @@ func vC17ServeSlab(s *Server, sl *vC17Slabs, path int, ip net.IP, port int, q *d
 	raw, _ := q.Pack()
 	now := time.Now()
 	a, _ := netip.AddrFromSlice(ip)
+	vC17LastReply = nil
 	if path == 4 {
 		j := sl.tcp
 		conn := &vC17Conn{remote: net.TCPAddr{IP: ip, Port: port}}
@@ -132,6 +133,9 @@ func vC17ServeSlab(s *Server, sl *vC17Slabs, path int, ip net.IP, port int, q *d
 		copy(j.rx, raw)
 		s.ServeRaw(j, j.rx[:len(raw)], now)
 		replied = j.written || stream.held > 0 || conn.wrote > 0
+		if stream.held > 2 {
+			vC17LastReply = vC17Decode(stream.drain[2:stream.held])
+		}
 		remote = vC17CoqRemote(j)
 		_ = stream.flush()
 		if stream.wait != nil {
@@ -156,6 +160,7 @@ func vC17ServeSlab(s *Server, sl *vC17Slabs, path int, ip net.IP, port int, q *d
 	}
 	replied = j.written || j.txLen > 0
 	remote = vC17CoqRemote(j)
+	vC17LastReply = vC17Decode(j.tx[:j.txLen])
 	j.written, j.txLen, j.replay, j.rxLen = false, 0, false, 0
 	prev, uses = sl.last[0], sl.uses[0]
 	sl.last[0], sl.uses[0] = a.String(), uses+1
@@ -191,11 +196,26 @@ func vC17CoqRemote(tr middleware.Transport) string {
 	return fmt.Sprintf("(mk_remote %s %s %d %s)", kind, ip, port, says)
 }
 
+// vC17LastReply is the reply the last vC17Serve / vC17ServeSlab call put on its transport (nil: none, or undecodable)
+var vC17LastReply *dns.Msg
+
+func vC17Decode(b []byte) *dns.Msg {
+	if len(b) == 0 {
+		return nil
+	}
+	m := new(dns.Msg)
+	if m.Unpack(b) != nil {
+		return nil
+	}
+	return m
+}
+
 var vC17Paths = []string{"wire-udp-job", "decoded-udp", "decoded-tcp", "inline+replay", "wire-tcp-job", "doh-writer", "doq-like-writer", "foreign-addr-type", "declares-internal-writer"}
 
 // vC17Serve sends one query from (ip, port) over the given path through the server's production entry
 // points and reports the remote the transport showed and whether the client got a reply.
 func vC17Serve(s *Server, path int, ip net.IP, port int, q *dns.Msg) (remote string, replied bool) {
+	vC17LastReply = nil
 	ap := func() string {
 		a, _ := netip.AddrFromSlice(ip)
 		return netip.AddrPortFrom(a, uint16(port)).String()
@@ -216,22 +236,27 @@ func vC17Serve(s *Server, path int, ip net.IP, port int, q *dns.Msg) (remote str
 		} else {
 			s.ServeRaw(job, raw, now)
 		}
+		vC17LastReply = vC17Decode(job.wrote)
 		return vC17CoqRemote(job), len(job.wrote) > 0
 	case 1, 2, 5:
 		mw := mock.NewWriter([]string{"", "udp", "tcp", "", "", "doh"}[path], ap()) // 5: what ServeHTTP builds for DoH / DoH3
 		s.ServeMsg(context.Background(), mw, q)
+		vC17LastReply = mw.Msg()
 		return vC17CoqRemote(mw), mw.Written()
 	case 6:
 		tr := &vC17Plain{addr: &net.UDPAddr{IP: ip, Port: port}, proto: "doq"}
 		s.ServeMsg(context.Background(), tr, q)
+		vC17LastReply = tr.msg
 		return vC17CoqRemote(tr), tr.msg != nil
 	case 8:
 		tr := &vC17Declares{vC17Plain{addr: &net.UDPAddr{IP: ip, Port: port}, proto: "udp"}}
 		s.ServeMsg(context.Background(), tr, q)
+		vC17LastReply = tr.msg
 		return vC17CoqRemote(tr), tr.msg != nil
 	default:
 		tr := &vC17Plain{addr: &net.IPAddr{IP: ip}, proto: "udp"}
 		s.ServeMsg(context.Background(), tr, q)
+		vC17LastReply = tr.msg
 		return vC17CoqRemote(tr), tr.msg != nil
 	}
 }
@@ -657,6 +682,208 @@ func TestVerifC17Chain(t *testing.T) {
 				"desc":       map[string]any{"via": []string{"queryer", "prefetch-queryer"}[via], "client_rate_limit_per_min": rate, "reflex_block_mode": reflexOn, "flood": nq, "answered": answered},
 			})
 			f.Write(append(b, '\n'))
+		}
+	}
+	// ---- views inside the default chain: the access list runs ahead of views, views ahead of the cache and the resolver.
+	// A source outside the list gets nothing even when a view contains it and holds a record for the question; an admitted
+	// client is answered by its view (first containing view, that view's own records) without any resolution - on every
+	// transport path incl. the engines' long-lived jobs; everything else is resolved (or answered from the cache).
+	coqBytes := func(s string) string {
+		parts := make([]string, 0, len(s))
+		for i := 0; i < len(s); i++ {
+			parts = append(parts, strconv.Itoa(int(s[i])))
+		}
+		return "[" + strings.Join(parts, ";") + "]"
+	}
+	nvw := 2 + n/4
+	for vc := 0; vc < nvw; vc++ {
+		zone := fmt.Sprintf("v%d.c17.test.", vc)
+		var cidrs []string
+		var good []netip.Prefix
+		if r.Intn(4) != 0 {
+			for i := 1 + r.Intn(2); i > 0; i-- {
+				p := vC17Prefix(r)
+				good = append(good, p)
+				cidrs = append(cidrs, p.String())
+			}
+			if r.Intn(3) == 0 {
+				cidrs = append(cidrs, "bogus/33")
+			}
+		}
+		outside := []netip.Prefix{netip.MustParsePrefix("203.0.113.0/24"), netip.MustParsePrefix("2a00:1450::/32"), netip.MustParsePrefix("127.0.0.0/8")}
+		type vrecT struct {
+			owner string
+			typ   uint16
+		}
+		owners := []string{"*." + zone, "host." + zone, "*.sub." + zone, "other." + zone, "HOST." + zone}
+		var vcfg []config.ViewConfig
+		var vcoq []string
+		var vdesc []any
+		var vnets []netip.Prefix
+		for vi := 0; vi < 1+r.Intn(3); vi++ {
+			var nets []string
+			var pc []string
+			for j := 1 + r.Intn(2); j > 0; j-- {
+				var pf netip.Prefix
+				switch {
+				case len(good) > 0 && r.Intn(2) == 0:
+					pf = good[r.Intn(len(good))]
+					if r.Intn(2) == 0 && pf.Bits() > 8 {
+						pf = netip.PrefixFrom(pf.Addr(), pf.Bits()-1-r.Intn(3)).Masked() // wider than the list's entry: part of it lies outside the list
+					}
+				case len(vnets) > 0 && r.Intn(3) == 0:
+					pf = vnets[r.Intn(len(vnets))] // shadowed by an earlier view
+				default:
+					pf = outside[r.Intn(len(outside))] // a view for sources the access list does not admit (unless the list is open)
+				}
+				vnets = append(vnets, pf)
+				nets = append(nets, pf.String())
+				pc = append(pc, fmt.Sprintf("mk_prefix %v %s %d", pf.Addr().Is4(), vC17Big(pf.Addr()).String(), pf.Bits()))
+			}
+			var answers, rcoq, rdesc []string
+			nrec := r.Intn(4)
+			for k := 0; k < nrec; k++ {
+				o := owners[r.Intn(len(owners))]
+				ty := dns.TypeA
+				line := fmt.Sprintf("%s 60 IN A 198.18.%d.%d", o, vi, k)
+				if r.Intn(5) == 0 {
+					ty = dns.TypeAAAA
+					line = fmt.Sprintf("%s 60 IN AAAA 2001:db8::%x:%x", o, vi, k)
+				}
+				answers = append(answers, line)
+				rcoq = append(rcoq, fmt.Sprintf("(%s, %d%%N)", coqBytes(o), ty))
+				rdesc = append(rdesc, fmt.Sprintf("%d:%s/%s", k, o, dns.TypeToString[ty]))
+			}
+			vcfg = append(vcfg, config.ViewConfig{Zone: fmt.Sprintf("view%d", vi), Networks: nets, Answers: answers})
+			vcoq = append(vcoq, fmt.Sprintf("([%s], [%s])", strings.Join(pc, "; "), strings.Join(rcoq, "; ")))
+			vdesc = append(vdesc, map[string]any{"networks": nets, "records": rdesc})
+		}
+		witness := &vC17Witness{}
+		middleware.Reset()
+		defaults.RegisterUpTo("resolver")
+		middleware.Register(witness.Name(), func(*config.Config) middleware.Handler { return witness })
+		cfg := &config.Config{Bind: "127.0.0.1:0", Expire: 600, CacheSize: 10240, AccessList: append([]string(nil), cidrs...), Views: vcfg}
+		cfg.QueryTimeout.Duration = 10 * time.Second
+		middleware.Setup(cfg)
+		s := New(cfg)
+		slabs := vC17NewSlabs()
+		var pcoq []string
+		for _, g := range good {
+			pcoq = append(pcoq, fmt.Sprintf("mk_prefix %v %s %d", g.Addr().Is4(), vC17Big(g.Addr()).String(), g.Bits()))
+		}
+		resolved := map[string]bool{}
+		for pr := 0; pr < 14; pr++ {
+			var src netip.Addr
+			pool := vnets
+			if len(good) > 0 && pr%3 == 0 {
+				pool = good
+			}
+			pf := pool[r.Intn(len(pool))]
+			switch r.Intn(6) {
+			case 0:
+				src = pf.Masked().Addr()
+			case 1:
+				src = pf.Masked().Addr().Prev()
+			case 2:
+				src = vC17Prefix(r).Addr()
+			default:
+				src = pf.Addr()
+				if pf.Addr().Is4() && pf.Bits() <= 24 { // somewhere inside, not only the prefix's own address
+					b := pf.Masked().Addr().As4()
+					b[3] = byte(1 + r.Intn(200))
+					src = netip.AddrFrom4(b)
+				}
+			}
+			if !src.IsValid() {
+				src = netip.MustParseAddr("203.0.113.9")
+			}
+			ip := net.IP(src.AsSlice())
+			if src.Is4() && r.Intn(3) == 0 {
+				b := src.As16()
+				ip = net.IP(b[:])
+			}
+			port := 1024 + r.Intn(60000)
+			if src.String() == "127.0.0.255" && r.Intn(2) == 0 {
+				port = 0
+			}
+			for rep := 0; rep < 2; rep++ {
+				qn++
+				qname := []string{"host." + zone, fmt.Sprintf("q%d.%s", qn, zone), "x.sub." + zone, fmt.Sprintf("q%d.elsewhere.test.", qn), "Host." + zone}[r.Intn(5)]
+				qtype := dns.TypeA
+				if r.Intn(6) == 0 {
+					qtype = dns.TypeAAAA
+				}
+				path := r.Intn(len(vC17Paths))
+				if path == 8 { // a transport that declares the request internal goes past the cache's lookup: only names asked once
+					qname = fmt.Sprintf("q%d.%s", qn, []string{zone, "elsewhere.test."}[r.Intn(2)])
+				}
+				q := new(dns.Msg)
+				q.SetQuestion(qname, qtype)
+				q.SetEdns0(1232, false)
+				key := strings.ToLower(qname) + "/" + dns.TypeToString[qtype]
+				cached := resolved[key]
+				before := witness.calls
+				var remote string
+				var replied bool
+				pathName := vC17Paths[path]
+				if (path == 0 || path == 3 || path == 4) && r.Intn(2) == 0 {
+					remote, replied, _, _ = vC17ServeSlab(s, slabs, path, ip, port, q)
+					pathName += " (long-lived engine job)"
+				} else {
+					remote, replied = vC17Serve(s, path, ip, port, q)
+				}
+				delta := witness.calls - before
+				if delta > 0 {
+					resolved[key] = true
+				}
+				answered := "None"
+				goFail := ""
+				view := -1
+				var served []string
+				if replied && delta == 0 && vC17LastReply != nil {
+					for _, rr := range vC17LastReply.Answer {
+						vi, ri := -1, -1
+						switch x := rr.(type) {
+						case *dns.A:
+							if b := x.A.To4(); b != nil && b[0] == 198 && b[1] == 18 {
+								vi, ri = int(b[2]), int(b[3])
+							}
+						case *dns.AAAA:
+							if x.AAAA[0] == 0x20 && x.AAAA[1] == 0x01 && x.AAAA[2] == 0x0d && x.AAAA[3] == 0xb8 {
+								vi, ri = int(x.AAAA[13]), int(x.AAAA[15])
+							}
+						}
+						if vi < 0 {
+							continue // not a view's record (the resolver stand-in's answer out of the cache)
+						}
+						if view >= 0 && vi != view {
+							goFail = "one reply carries records of two views"
+						}
+						view = vi
+						served = append(served, fmt.Sprintf("%d%%nat", ri))
+					}
+					if view >= 0 {
+						answered = fmt.Sprintf("(Some (%d%%nat, [%s]))", view, strings.Join(served, "; "))
+					}
+				}
+				k := "chainview-denied"
+				switch {
+				case view >= 0:
+					k = "chainview-answered-by-view"
+				case replied && delta > 0:
+					k = "chainview-resolved"
+				case replied:
+					k = "chainview-from-cache"
+				}
+				b, _ := json.Marshal(map[string]any{
+					"k":          k,
+					"coq":        fmt.Sprintf("CaseChainView %d [%s] [%s] %s %d %s %d %v %s %v %d", len(cidrs), strings.Join(pcoq, "; "), strings.Join(vcoq, "; "), remote, path, coqBytes(qname), qtype, cached, answered, replied, delta),
+					"go_fail":    goFail,
+					"nontrivial": true,
+					"desc":       map[string]any{"accesslist": cidrs, "views": vdesc, "src": src.String(), "src_ip_bytes": len(ip), "src_port": port, "path": pathName, "question": qname + " " + dns.TypeToString[qtype], "resolved_before": cached, "answered_by_view": answered, "replied": replied, "resolver_calls": delta},
+				})
+				f.Write(append(b, '\n'))
+			}
 		}
 	}
 	middleware.Reset()
